@@ -177,3 +177,244 @@ Proof.
   unfold gen_init_outcome.
   yes. yes. yes. yes. yes. yes. yes. no. no. yes. no. reflexivity.
 Qed.
+
+(* ======================================================================================================
+   e0 <= 1e-4 (leaf 3 of gen_init_outcome: near-earth-normal, e0 <= 1e-4, |1 + cos i| >= 1.5e-12).
+   The report's model with the small-eccentricity convention is  mkT true ts : delta-omega = delta-M = 0
+   (C3 unused).  ecl3 is the clamped eccentricity  clamp_e (e_unclamped El (mkT true ts)).
+   ====================================================================================================== *)
+From PyOrb.proofs Require Import P_Sgp4SmallE P_Sgp4SmallEIncl.
+
+Section C01_small_e.
+  Variables e0 incl_deg raan_deg argp_deg ma_deg n_revday bstar ts : R.
+  Notation "'GA' f" := (f e0 incl_deg raan_deg argp_deg ma_deg n_revday bstar) (at level 9, f at level 9).
+  Notation "'GB' f" := (f e0 incl_deg raan_deg argp_deg ma_deg n_revday bstar ts) (at level 9, f at level 9).
+  Notation El := (E e0 incl_deg raan_deg argp_deg ma_deg n_revday bstar).
+  Notation T := (mkT true ts).
+  Notation ec := (ecl3 e0 incl_deg raan_deg argp_deg ma_deg n_revday bstar ts).
+
+  (* exactly which inputs take this path *)
+  Theorem C01_small_e_leaf_conditions : GA gen_init_outcome = InitMode NearNorm 3 <->
+    elements_in_range e0 incl_deg raan_deg argp_deg ma_deg n_revday bstar /\
+    GA gen_sgp4_period < 225 /\ 220 <= GA gen_sgp4_perigee /\ e0 <= 1 / 10000 /\
+    3 / 2000000000000 <= GA gen_init_guard3.
+  Proof. exact (leaf3_iff _ _ _ _ _ _ _). Qed.
+
+  (* the report's switched-off terms: M = MDF, omega = omegaDF *)
+  Theorem C01_small_e_no_delta : delta_w El T = 0 /\ delta_M El T = 0 /\ Mp El T = MDF El T /\ w El T = wDF El T.
+  Proof. exact (conj (delta_w3 _ _ _ _ _ _ _ _) (conj (delta_M3 _ _ _ _ _ _ _ _) (small_e_no_delta _ _ _ _ _ _ _ _))). Qed.
+
+  Hypothesis Hleaf : GA gen_init_outcome = InitMode NearNorm 3.
+
+  (* Kozai -> Brouwer recovery, drag and secular coefficients: exactly the report's; the three
+     quantities the report does not use for e0 <= 1e-4 are stored as 0 *)
+  Theorem C01_small_e_coefficients :
+    GA gen_sgp4_xnodp = n0'' El /\ GA gen_sgp4_aodp = a0'' El /\
+    GA gen_sgp4_perigee = perigee_km El /\ GA gen_sgp4_apogee = apogee_km El /\ GA gen_sgp4_period = period_min El /\
+    GA gen_sgp4_eta_v2 = eta El /\ GA gen_sgp4_c2_v2 = C2 El /\ GA gen_sgp4_c1_v2 = C1 El /\
+    GA gen_sgp4_c4_v2 = C4 El /\ GA gen_sgp4_c5_v1 = C5 El /\
+    GA gen_sgp4_d2 = D2 El /\ GA gen_sgp4_d3 = D3 El /\ GA gen_sgp4_d4 = D4 El /\
+    GA gen_sgp4_xmdot = Mdot El /\ GA gen_sgp4_omgdot = wdot El /\ GA gen_sgp4_xnodot = Odot El /\
+    GA gen_sgp4_c3_v0 = 0 /\ GA gen_sgp4_omgcof_v2 = 0 /\ GA gen_sgp4_xmcof_v1 = 0.
+  Proof. exact (coefficients3 _ _ _ _ _ _ _ Hleaf). Qed.
+
+  (* secular + drag update at ts, and the long-period terms (on the clamped eccentricity ec) *)
+  Theorem C01_small_e_update : a El T <> 0 ->
+    GB gen_nn2_xmp = Mp El T /\ GB gen_nn2_omega = w El T /\ GB gen_nn0_xnode = Om El T /\
+    GB gen_nn2_guard0 = e_unclamped El T /\ GB gen_nn0_a = a El T /\
+    GB gen_nn2_axn = axN El T ec /\ GB gen_nn2_ayn = ayN El T ec /\ GB gen_nn3_xlt = ILT El T ec /\
+    GB gen_nn2_elsq = eL2 El T ec /\ GB gen_nn2_pl = pL El T ec /\
+    GB gen_nn3_epw_x0 = fmodR (U El T ec) (2 * PI).
+  Proof. exact (update3 _ _ _ _ _ _ _ _ Hleaf). Qed.
+
+  (* the decay guards every returned state has passed *)
+  Theorem C01_small_e_guards : forall j, GB gen_nn3_prop_outcome = PropOk j ->
+    1 <= a El T /\ - (1 / 1000) <= e_unclamped El T /\ eL2 El T ec < 1.
+  Proof. exact (prop_ok_guards3 _ _ _ _ _ _ _ _ Hleaf). Qed.
+
+  (* the clamp is the identity on the report's range of eccentricities *)
+  Theorem C01_small_e_clamp_inactive : 1 / 1000000 <= e_unclamped El T <= 999999 / 1000000 -> ec = e_unclamped El T.
+  Proof. intros H. unfold ecl3. apply clamp_e_id. exact H. Qed.
+End C01_small_e.
+Print Assumptions C01_small_e_leaf_conditions.
+Print Assumptions C01_small_e_no_delta.
+Print Assumptions C01_small_e_coefficients.
+Print Assumptions C01_small_e_update.
+Print Assumptions C01_small_e_guards.
+Print Assumptions C01_small_e_clamp_inactive.
+
+(* every exit on leaf 3: the returned elements are the report's short-period finishing map at a value Ew of
+   E + omega whose Kepler residual is below 1e-12 (exits 0..9), resp. at the last iterate (exit 10) *)
+Theorem C01_small_e_exit_0 : forall e0 i r w m n b ts, gen_init_outcome e0 i r w m n b = InitMode NearNorm 3 ->
+  gen_nn3_prop_outcome e0 i r w m n b ts = PropOk 0 ->
+  let Ew := gen_nn3_epw_x0 e0 i r w m n b ts in
+  Rabs (kepler_residual (E e0 i r w m n b) (mkT true ts) (ecl3 e0 i r w m n b ts)
+          (fmodR (U (E e0 i r w m n b) (mkT true ts) (ecl3 e0 i r w m n b ts)) (2 * PI)) Ew) < 1 / 1000000000000 /\
+  exit_ok3 e0 i r w m n b ts Ew (gen_nn3_x0_radius e0 i r w m n b ts) (gen_nn3_x0_theta e0 i r w m n b ts)
+    (gen_nn3_x0_eqinc e0 i r w m n b ts) (gen_nn3_x0_ascn e0 i r w m n b ts) (gen_nn3_x0_rdotk e0 i r w m n b ts)
+    (gen_nn3_x0_rfdotk e0 i r w m n b ts) (gen_nn3_x0_smjaxs e0 i r w m n b ts).
+Proof. exact exit3_0. Qed.
+Print Assumptions C01_small_e_exit_0.
+
+Theorem C01_small_e_exit_1 : forall e0 i r w m n b ts, gen_init_outcome e0 i r w m n b = InitMode NearNorm 3 ->
+  gen_nn3_prop_outcome e0 i r w m n b ts = PropOk 1 ->
+  let Ew := gen_nn3_epw_x1 e0 i r w m n b ts in
+  Rabs (kepler_residual (E e0 i r w m n b) (mkT true ts) (ecl3 e0 i r w m n b ts)
+          (fmodR (U (E e0 i r w m n b) (mkT true ts) (ecl3 e0 i r w m n b ts)) (2 * PI)) Ew) < 1 / 1000000000000 /\
+  exit_ok3 e0 i r w m n b ts Ew (gen_nn3_x1_radius e0 i r w m n b ts) (gen_nn3_x1_theta e0 i r w m n b ts)
+    (gen_nn3_x1_eqinc e0 i r w m n b ts) (gen_nn3_x1_ascn e0 i r w m n b ts) (gen_nn3_x1_rdotk e0 i r w m n b ts)
+    (gen_nn3_x1_rfdotk e0 i r w m n b ts) (gen_nn3_x1_smjaxs e0 i r w m n b ts).
+Proof. exact exit3_1. Qed.
+Print Assumptions C01_small_e_exit_1.
+
+Theorem C01_small_e_exit_2 : forall e0 i r w m n b ts, gen_init_outcome e0 i r w m n b = InitMode NearNorm 3 ->
+  gen_nn3_prop_outcome e0 i r w m n b ts = PropOk 2 ->
+  let Ew := gen_nn3_epw_x2 e0 i r w m n b ts in
+  Rabs (kepler_residual (E e0 i r w m n b) (mkT true ts) (ecl3 e0 i r w m n b ts)
+          (fmodR (U (E e0 i r w m n b) (mkT true ts) (ecl3 e0 i r w m n b ts)) (2 * PI)) Ew) < 1 / 1000000000000 /\
+  exit_ok3 e0 i r w m n b ts Ew (gen_nn3_x2_radius e0 i r w m n b ts) (gen_nn3_x2_theta e0 i r w m n b ts)
+    (gen_nn3_x2_eqinc e0 i r w m n b ts) (gen_nn3_x2_ascn e0 i r w m n b ts) (gen_nn3_x2_rdotk e0 i r w m n b ts)
+    (gen_nn3_x2_rfdotk e0 i r w m n b ts) (gen_nn3_x2_smjaxs e0 i r w m n b ts).
+Proof. exact exit3_2. Qed.
+Print Assumptions C01_small_e_exit_2.
+
+Theorem C01_small_e_exit_3 : forall e0 i r w m n b ts, gen_init_outcome e0 i r w m n b = InitMode NearNorm 3 ->
+  gen_nn3_prop_outcome e0 i r w m n b ts = PropOk 3 ->
+  let Ew := gen_nn3_epw_x3 e0 i r w m n b ts in
+  Rabs (kepler_residual (E e0 i r w m n b) (mkT true ts) (ecl3 e0 i r w m n b ts)
+          (fmodR (U (E e0 i r w m n b) (mkT true ts) (ecl3 e0 i r w m n b ts)) (2 * PI)) Ew) < 1 / 1000000000000 /\
+  exit_ok3 e0 i r w m n b ts Ew (gen_nn3_x3_radius e0 i r w m n b ts) (gen_nn3_x3_theta e0 i r w m n b ts)
+    (gen_nn3_x3_eqinc e0 i r w m n b ts) (gen_nn3_x3_ascn e0 i r w m n b ts) (gen_nn3_x3_rdotk e0 i r w m n b ts)
+    (gen_nn3_x3_rfdotk e0 i r w m n b ts) (gen_nn3_x3_smjaxs e0 i r w m n b ts).
+Proof. exact exit3_3. Qed.
+Print Assumptions C01_small_e_exit_3.
+
+Theorem C01_small_e_exit_4 : forall e0 i r w m n b ts, gen_init_outcome e0 i r w m n b = InitMode NearNorm 3 ->
+  gen_nn3_prop_outcome e0 i r w m n b ts = PropOk 4 ->
+  let Ew := gen_nn3_epw_x4 e0 i r w m n b ts in
+  Rabs (kepler_residual (E e0 i r w m n b) (mkT true ts) (ecl3 e0 i r w m n b ts)
+          (fmodR (U (E e0 i r w m n b) (mkT true ts) (ecl3 e0 i r w m n b ts)) (2 * PI)) Ew) < 1 / 1000000000000 /\
+  exit_ok3 e0 i r w m n b ts Ew (gen_nn3_x4_radius e0 i r w m n b ts) (gen_nn3_x4_theta e0 i r w m n b ts)
+    (gen_nn3_x4_eqinc e0 i r w m n b ts) (gen_nn3_x4_ascn e0 i r w m n b ts) (gen_nn3_x4_rdotk e0 i r w m n b ts)
+    (gen_nn3_x4_rfdotk e0 i r w m n b ts) (gen_nn3_x4_smjaxs e0 i r w m n b ts).
+Proof. exact exit3_4. Qed.
+Print Assumptions C01_small_e_exit_4.
+
+Theorem C01_small_e_exit_5 : forall e0 i r w m n b ts, gen_init_outcome e0 i r w m n b = InitMode NearNorm 3 ->
+  gen_nn3_prop_outcome e0 i r w m n b ts = PropOk 5 ->
+  let Ew := gen_nn3_epw_x5 e0 i r w m n b ts in
+  Rabs (kepler_residual (E e0 i r w m n b) (mkT true ts) (ecl3 e0 i r w m n b ts)
+          (fmodR (U (E e0 i r w m n b) (mkT true ts) (ecl3 e0 i r w m n b ts)) (2 * PI)) Ew) < 1 / 1000000000000 /\
+  exit_ok3 e0 i r w m n b ts Ew (gen_nn3_x5_radius e0 i r w m n b ts) (gen_nn3_x5_theta e0 i r w m n b ts)
+    (gen_nn3_x5_eqinc e0 i r w m n b ts) (gen_nn3_x5_ascn e0 i r w m n b ts) (gen_nn3_x5_rdotk e0 i r w m n b ts)
+    (gen_nn3_x5_rfdotk e0 i r w m n b ts) (gen_nn3_x5_smjaxs e0 i r w m n b ts).
+Proof. exact exit3_5. Qed.
+Print Assumptions C01_small_e_exit_5.
+
+Theorem C01_small_e_exit_6 : forall e0 i r w m n b ts, gen_init_outcome e0 i r w m n b = InitMode NearNorm 3 ->
+  gen_nn3_prop_outcome e0 i r w m n b ts = PropOk 6 ->
+  let Ew := gen_nn3_epw_x6 e0 i r w m n b ts in
+  Rabs (kepler_residual (E e0 i r w m n b) (mkT true ts) (ecl3 e0 i r w m n b ts)
+          (fmodR (U (E e0 i r w m n b) (mkT true ts) (ecl3 e0 i r w m n b ts)) (2 * PI)) Ew) < 1 / 1000000000000 /\
+  exit_ok3 e0 i r w m n b ts Ew (gen_nn3_x6_radius e0 i r w m n b ts) (gen_nn3_x6_theta e0 i r w m n b ts)
+    (gen_nn3_x6_eqinc e0 i r w m n b ts) (gen_nn3_x6_ascn e0 i r w m n b ts) (gen_nn3_x6_rdotk e0 i r w m n b ts)
+    (gen_nn3_x6_rfdotk e0 i r w m n b ts) (gen_nn3_x6_smjaxs e0 i r w m n b ts).
+Proof. exact exit3_6. Qed.
+Print Assumptions C01_small_e_exit_6.
+
+Theorem C01_small_e_exit_7 : forall e0 i r w m n b ts, gen_init_outcome e0 i r w m n b = InitMode NearNorm 3 ->
+  gen_nn3_prop_outcome e0 i r w m n b ts = PropOk 7 ->
+  let Ew := gen_nn3_epw_x7 e0 i r w m n b ts in
+  Rabs (kepler_residual (E e0 i r w m n b) (mkT true ts) (ecl3 e0 i r w m n b ts)
+          (fmodR (U (E e0 i r w m n b) (mkT true ts) (ecl3 e0 i r w m n b ts)) (2 * PI)) Ew) < 1 / 1000000000000 /\
+  exit_ok3 e0 i r w m n b ts Ew (gen_nn3_x7_radius e0 i r w m n b ts) (gen_nn3_x7_theta e0 i r w m n b ts)
+    (gen_nn3_x7_eqinc e0 i r w m n b ts) (gen_nn3_x7_ascn e0 i r w m n b ts) (gen_nn3_x7_rdotk e0 i r w m n b ts)
+    (gen_nn3_x7_rfdotk e0 i r w m n b ts) (gen_nn3_x7_smjaxs e0 i r w m n b ts).
+Proof. exact exit3_7. Qed.
+Print Assumptions C01_small_e_exit_7.
+
+Theorem C01_small_e_exit_8 : forall e0 i r w m n b ts, gen_init_outcome e0 i r w m n b = InitMode NearNorm 3 ->
+  gen_nn3_prop_outcome e0 i r w m n b ts = PropOk 8 ->
+  let Ew := gen_nn3_epw_x8 e0 i r w m n b ts in
+  Rabs (kepler_residual (E e0 i r w m n b) (mkT true ts) (ecl3 e0 i r w m n b ts)
+          (fmodR (U (E e0 i r w m n b) (mkT true ts) (ecl3 e0 i r w m n b ts)) (2 * PI)) Ew) < 1 / 1000000000000 /\
+  exit_ok3 e0 i r w m n b ts Ew (gen_nn3_x8_radius e0 i r w m n b ts) (gen_nn3_x8_theta e0 i r w m n b ts)
+    (gen_nn3_x8_eqinc e0 i r w m n b ts) (gen_nn3_x8_ascn e0 i r w m n b ts) (gen_nn3_x8_rdotk e0 i r w m n b ts)
+    (gen_nn3_x8_rfdotk e0 i r w m n b ts) (gen_nn3_x8_smjaxs e0 i r w m n b ts).
+Proof. exact exit3_8. Qed.
+Print Assumptions C01_small_e_exit_8.
+
+Theorem C01_small_e_exit_9 : forall e0 i r w m n b ts, gen_init_outcome e0 i r w m n b = InitMode NearNorm 3 ->
+  gen_nn3_prop_outcome e0 i r w m n b ts = PropOk 9 ->
+  let Ew := gen_nn3_epw_x9 e0 i r w m n b ts in
+  Rabs (kepler_residual (E e0 i r w m n b) (mkT true ts) (ecl3 e0 i r w m n b ts)
+          (fmodR (U (E e0 i r w m n b) (mkT true ts) (ecl3 e0 i r w m n b ts)) (2 * PI)) Ew) < 1 / 1000000000000 /\
+  exit_ok3 e0 i r w m n b ts Ew (gen_nn3_x9_radius e0 i r w m n b ts) (gen_nn3_x9_theta e0 i r w m n b ts)
+    (gen_nn3_x9_eqinc e0 i r w m n b ts) (gen_nn3_x9_ascn e0 i r w m n b ts) (gen_nn3_x9_rdotk e0 i r w m n b ts)
+    (gen_nn3_x9_rfdotk e0 i r w m n b ts) (gen_nn3_x9_smjaxs e0 i r w m n b ts).
+Proof. exact exit3_9. Qed.
+Print Assumptions C01_small_e_exit_9.
+
+Theorem C01_small_e_exit_10 : forall e0 i r w m n b ts, gen_init_outcome e0 i r w m n b = InitMode NearNorm 3 ->
+  gen_nn3_prop_outcome e0 i r w m n b ts = PropOk 10 ->
+  let Ew := gen_nn3_epw_x9 e0 i r w m n b ts in
+  exit_ok3 e0 i r w m n b ts Ew (gen_nn3_x10_radius e0 i r w m n b ts) (gen_nn3_x10_theta e0 i r w m n b ts)
+    (gen_nn3_x10_eqinc e0 i r w m n b ts) (gen_nn3_x10_ascn e0 i r w m n b ts) (gen_nn3_x10_rdotk e0 i r w m n b ts)
+    (gen_nn3_x10_rfdotk e0 i r w m n b ts) (gen_nn3_x10_smjaxs e0 i r w m n b ts).
+Proof. exact exit3_10. Qed.
+Print Assumptions C01_small_e_exit_10.
+
+(* what exit_ok3 says (the report's finishing map; km and km/s units) *)
+Theorem C01_small_e_exit_ok_meaning : forall e0 i r w m n b ts Ew radius theta eqinc ascn rdk rfdk smjaxs,
+  exit_ok3 e0 i r w m n b ts Ew radius theta eqinc ascn rdk rfdk smjaxs <->
+  let El := E e0 i r w m n b in let T := mkT true ts in let ec := ecl3 e0 i r w m n b ts in
+  radius = rk El T ec Ew * XKMPER /\
+  theta = uk El T ec Ew (atan2 (sinu El T ec Ew) (cosu El T ec Ew)) /\
+  eqinc = ik El T ec Ew /\ ascn = Ok El T ec Ew /\
+  rdk = rdotk El T ec Ew * (XKMPER / aE * min_per_day / 86400) /\
+  rfdk = rfdotk El T ec Ew * (XKMPER / aE * min_per_day / 86400) /\
+  smjaxs = a El T * XKMPER.
+Proof. intros. reflexivity. Qed.
+Print Assumptions C01_small_e_exit_ok_meaning.
+
+(* Kepler accuracy on leaf 3, as C01_kepler_accuracy *)
+Theorem C01_small_e_kepler_accuracy : forall e0 i r w m n b ts j Ucap Ew,
+  gen_init_outcome e0 i r w m n b = InitMode NearNorm 3 ->
+  gen_nn3_prop_outcome e0 i r w m n b ts = PropOk j ->
+  let El := E e0 i r w m n b in let T := mkT true ts in let ec := ecl3 e0 i r w m n b ts in
+  Rabs (kepler_residual El T ec Ucap Ew) < 1 / 1000000000000 ->
+  exists Es, kepler_residual El T ec Ucap Es = 0 /\
+             (forall Es', kepler_residual El T ec Ucap Es' = 0 -> Es' = Es) /\
+             Rabs (Es - Ucap) <= sqrt (eL2 El T ec) /\ sqrt (eL2 El T ec) < 1 /\
+             (1 - sqrt (eL2 El T ec)) * Rabs (Ew - Es) < 1 / 1000000000000.
+Proof. intros e0 i r w m n b ts j Ucap Ew Hl Hp El T ec. exact (kepler_accuracy3 e0 i r w m n b ts Hl j Ucap Ew _ Hp). Qed.
+Print Assumptions C01_small_e_kepler_accuracy.
+
+(* the remaining two near-earth-normal leaves (|1 + cos i| < 1.5e-12, NearNorm 0 and 2) are unreachable from
+   TLE text: the inclination field has four decimals (incl_deg = k / 10000), the constructor demands
+   0 < i < PI, and 1 + cos (179.9999 deg) = 1.523e-12 > 1.5e-12 *)
+Theorem C01_small_e_tle_inclination_guard : forall k : Z,
+  0 < deg2rad (IZR k / 10000) -> deg2rad (IZR k / 10000) < PI ->
+  3 / 2000000000000 < Rabs (1 + cos (deg2rad (IZR k / 10000))).
+Proof. exact tle_incl_guard. Qed.
+Print Assumptions C01_small_e_tle_inclination_guard.
+
+Theorem C01_small_e_tle_never_leaf_0_2 : forall e0 r w m n b (k : Z),
+  gen_init_outcome e0 (IZR k / 10000) r w m n b <> InitMode NearNorm 0 /\
+  gen_init_outcome e0 (IZR k / 10000) r w m n b <> InitMode NearNorm 2.
+Proof. intros. split; [apply tle_incl_not_leaf0|apply tle_incl_not_leaf2]. Qed.
+Print Assumptions C01_small_e_tle_never_leaf_0_2.
+
+Theorem C01_small_e_tle_leaf_1_or_3 : forall e0 r w m n b (k : Z) j,
+  gen_init_outcome e0 (IZR k / 10000) r w m n b = InitMode NearNorm j -> j = 1%nat \/ j = 3%nat.
+Proof. exact tle_incl_near_norm_leaf. Qed.
+Print Assumptions C01_small_e_tle_leaf_1_or_3.
+
+(* non-vacuity: e0 = 5e-5, i = 98.7 deg, n = 14.2 rev/day is on leaf 3 (decided by interval arithmetic) *)
+Example C01_small_e_on_leaf3 :
+  gen_init_outcome (1 / 20000) (987 / 10) (2474627 / 10000) (1305360 / 10000) (3250288 / 10000)
+                   (142 / 10) (1 / 100000) = InitMode NearNorm 3.
+Proof.
+  unfold gen_init_outcome.
+  yes. yes. yes. yes. yes. yes. yes. no. no. no. no. reflexivity.
+Qed.
